@@ -12,6 +12,7 @@ def specs_for(tier, seed):
         dict(pres="tensors", nreq=2, ce=1000, label="real graph, tensors, 2 requests exhaustive, no clean-up (ce=1000)"),
         dict(pres="components", nreq=1, ce=1, label="real graph, components, 1 request exhaustive, ce=1"),
         dict(pres="minimal", nreq=1, ce=3, label="real graph, minimal inputs, 1 request, ce=3"),
+        dict(pres="dust", nreq=3, ce=2, requests="MATTER", label="rest-mass density with a vacuum region, no eps given: 3 requests over matter keys, ce=2"),
         dict(pres="partial", nreq=2, ce=1000, requests="SHIFT", label="shift given by two components only: 2 requests over shift-related keys and helpers"),
         dict(pres="tensors", nreq=1, ce=1, mt=True, label="real graph, tensors, 1 request, memory threshold tiny"),
         dict(pres="tensors", nreq=5, ce=3, simulate=6, seed=seed + 1, emit=False, label="simulate 5 requests ce=3"),
@@ -40,10 +41,14 @@ def run(tier, seed):
     shift_keys = [k for k in graph["keys"] + graph["helpers"] if k.startswith("beta") or k in
                   ("gtt", "gtx", "gty", "gtz", "gdown4", "gup4", "nup4", "call:s_to_st", "call:Lie_beta:s_dd", "call:Lie_beta:st_u",
                    "st_Riemann_down4", "st_Weyl_down4", "uup4", "gdet", "dttau")]
+    matter_keys = [k for k in graph["keys"] if any(t in k for t in ("rho", "eps", "enthalpy", "conserved_D", "conserved_E", "press"))
+                   and "fromHam" not in k] + ["gdet", "alpha", "Ktrace"]
     sp = specs_for(tier, seed)
     for x in sp:
         if x.get("requests") == "SHIFT":
             x["requests"] = shift_keys
+        if x.get("requests") == "MATTER":
+            x["requests"] = matter_keys
     specs = CC.run_models(run, graph, sp, plan, opts)
     run.info["tlc_models"] = [{k: v for k, v in sp.items() if k != "requests"} for sp in specs]
     CC.execute(run, "C01", graph, plan, opts, seed, max_traces=250 if tier == "quick" else 3000)
